@@ -9,17 +9,27 @@ using C = CH_T;
 #if IS_FLOAT
 static C sym() { float f = vp_nondet_float(); vp_assume(f >= 0.0f && f <= 1.0f); return C(f); }
 static float val(C x) { return (float)x; }
+// stratified float: sign+exponent (upper 9 bits) concrete per query, mantissa symbolic
+static C symf(int which) { if (vp_param(0) & which) { unsigned m = vp_nondet_u32(); unsigned bits = ((unsigned)vp_param(which) << 23) | (m & (which == 2 ? 0x7F8000u : 0x7FFFFFu));   /* b: top 8 mantissa bits */ float f; __builtin_memcpy(&f, &bits, 4); vp_assume(f >= 0.0f && f <= 1.0f); return C(f); } return sym(); }
 #elif IS_PACKED
 static C sym() { unsigned v = vp_nondet_u16(); vp_assume(v <= (unsigned)((1u << NBITS) - 1)); return C((typename C::integer_t)v); }
+static C sym_strat() { return sym(); }
+static C sym_strat_b() { return sym(); }
 static i128 num(C x) { return (i128)(typename C::integer_t)x; }
 static i128 lo() { return 0; }
 static i128 hi() { return (i128)((1u << NBITS) - 1); }
 #else
 static C sym() { if (sizeof(C) == 1) return (C)vp_nondet_u8(); if (sizeof(C) == 2) return (C)vp_nondet_u16(); return (C)vp_nondet_u32(); }
-static C sym_strat() { if (vp_param(0) == 1) { unsigned l = vp_nondet_u8(); return (C)(((unsigned)vp_param(1) << 8) | l); } return sym(); }
+static C sym_strat() { if (vp_param(0) & 1) { unsigned l = vp_nondet_u8(); return (C)(((unsigned)vp_param(1) << 8) | l); } return sym(); }
+static C sym_strat_b() { if (vp_param(0) & 2) { unsigned l = vp_nondet_u8(); return (C)(((unsigned)vp_param(2) << 8) | l); } return sym(); }
 static i128 num(C x) { return (i128)x; }
 static i128 lo() { return (i128)std::numeric_limits<C>::min(); }
 static i128 hi() { return (i128)std::numeric_limits<C>::max(); }
+#endif
+#if IS_PACKED
+static C mk(long long v) { return C((typename C::integer_t)v); }
+#elif !IS_FLOAT
+static C mk(long long v) { return (C)v; }
 #endif
 static C cmin() { return gil::channel_traits<C>::min_value(); }
 static C cmax() { return gil::channel_traits<C>::max_value(); }
@@ -27,21 +37,32 @@ extern "C" {
 #if IS_FLOAT
 void h_mul_unit(void) { C a = sym(), b = sym(); C m = gil::channel_multiply(a, b); vp_assert(val(m) == val(a) * val(b), "mul.float_product"); }
 void h_mul_comm(void) { C a = sym(), b = sym(); vp_assert(val(gil::channel_multiply(a, b)) == val(gil::channel_multiply(b, a)), "mul.commutative"); }
-void h_mul_mono(void) { C a = sym(), a2 = sym(), b = sym(); vp_assume(val(a) <= val(a2)); vp_assert(val(gil::channel_multiply(a, b)) <= val(gil::channel_multiply(a2, b)), "mul.monotone"); }
+// monotone <=> f(a) <= f(succ(a)) for every a below the maximum (chain argument over the finite ordered value set);
+// for non-negative floats the successor is the next bit pattern
+void h_mul_mono(void) {
+    C a = symf(1); C b = symf(2);
+    float af = val(a); unsigned bits; __builtin_memcpy(&bits, &af, 4); vp_assume(bits < 0x80000000u); bits += 1; float a2f; __builtin_memcpy(&a2f, &bits, 4);
+    vp_assume(a2f <= 1.0f);
+    C a2(a2f);
+    vp_assert(val(gil::channel_multiply(a, b)) <= val(gil::channel_multiply(a2, b)), "mul.monotone_first");
+    vp_assert(val(gil::channel_multiply(b, a)) <= val(gil::channel_multiply(b, a2)), "mul.monotone_second");
+}
 void h_mul_ident(void) { C a = sym(); vp_assert(val(gil::channel_multiply(a, cmax())) == val(a), "mul.max_is_identity"); vp_assert(val(gil::channel_multiply(a, cmin())) == val(cmin()), "mul.min_is_annihilator"); }
 void h_mul_range(void) { C a = sym(), b = sym(); C m = gil::channel_multiply(a, b); vp_assert(val(m) >= 0.0f && val(m) <= 1.0f, "mul.in_range"); }
 void h_inv(void) { C x = sym(); C y = gil::channel_invert(x); vp_assert(val(y) == 1.0f - val(x) + 0.0f, "inv.formula"); vp_assert(val(y) >= 0.0f && val(y) <= 1.0f, "inv.in_range"); }
 #else
 void h_mul_unit(void) {
-    C a = sym(), b = sym(); C m = gil::channel_multiply(a, b);
+    C a = sym_strat(); C b = sym_strat_b(); C m = gil::channel_multiply(a, b);
     i128 r = hi() - lo();
     i128 e = (num(m) - lo()) * r - (num(a) - lo()) * (num(b) - lo());
     vp_assert(e < r && -e < r, "mul.within_one_unit");
 }
 void h_mul_comm(void) { C a = sym(), b = sym(); vp_assert(num(gil::channel_multiply(a, b)) == num(gil::channel_multiply(b, a)), "mul.commutative"); }
+// monotone <=> f(a) <= f(a+1) for every a below the maximum (chain argument over the finite ordered value set)
 void h_mul_mono(void) {
-    C a = sym_strat(); C a2 = sym(); C b = sym();
-    vp_assume(num(a) <= num(a2));
+    C a = sym_strat(); C b = sym_strat_b();
+    vp_assume(num(a) < hi());
+    C a2 = mk((long long)(num(a) + 1));
     vp_assert(num(gil::channel_multiply(a, b)) <= num(gil::channel_multiply(a2, b)), "mul.monotone_first");
     vp_assert(num(gil::channel_multiply(b, a)) <= num(gil::channel_multiply(b, a2)), "mul.monotone_second");
 }
